@@ -44,6 +44,9 @@ type pMethod struct {
 	Params  []pParam `json:"params"`
 	Results []string `json:"results"`
 	Recv    string   `json:"recv,omitempty"` // "" = (c *T); "anon-ptr" = (*T); "anon-val" = (T); "blank" = (_ *T)
+	// rig only - what the (echoing) controller method does after recording its arguments
+	SetStatus int  `json:"setStatus,omitempty"` // calls c.SetStatus(<code>) before returning
+	Fail      bool `json:"fail,omitempty"`      // returns a non-nil error
 }
 
 // recvText: the receiver clause of a controller method
@@ -348,7 +351,17 @@ func writeProject(p pProject, dir string) (map[string]string, error) {
 					return ", " + strings.Join(args, ", ")
 				}())
 			}
-			mb.WriteString(fmt.Sprintf("%sfunc %s %s(%s)%s {\n\t%s%s\n}\n", ind, recvText(c.Name, m.Recv), m.Name, strings.Join(ps, ", "), res, pre, zeroReturn(m.Results)))
+			recv, ret := recvText(c.Name, m.Recv), zeroReturn(m.Results)
+			if p.Echo && m.SetStatus > 0 {
+				recv = "(c *" + c.Name + ")"
+				pre += fmt.Sprintf("c.SetStatus(runtime.HttpStatusCode(%d))\n\t", m.SetStatus)
+			}
+			if p.Echo && m.Fail {
+				if i := strings.LastIndex(ret, "nil"); i >= 0 {
+					ret = ret[:i] + `rigrec.Failure("operation failed")` + ret[i+3:]
+				}
+			}
+			mb.WriteString(fmt.Sprintf("%sfunc %s %s(%s)%s {\n\t%s%s\n}\n", ind, recv, m.Name, strings.Join(ps, ", "), res, pre, ret))
 			mf.decls = append(mf.decls, mb.String())
 		}
 	}
